@@ -455,7 +455,8 @@ def _gen_scalar(g):
                 items.append(g.lit())
             else:
                 k = r.choice([0, 1, 2, 2, 3, 4, 5]) if g.top else r.choice([0, 1, 2, 4])
-                items.append(lit(tuple(g.num(allow_none=g.top and r.random() < 0.15) for _ in range(k))))   # a tuple with a rest comes back as a tuple: top level only
+                chord = tuple(g.num(allow_none=g.top and r.random() < 0.15) for _ in range(k))   # a tuple with a rest comes back as a tuple: top level only
+                items.append(lit(chord))
         inp = node("seq", [r.choice([1, 2]) if g.finite_only else r.choice([1, 2, -1]), 0, 0], [], items)
     if g.top and r.random() < 0.15:      # a finite method pattern: the reduction ends with it
         method = node("seq", [r.choice([1, 2]), 0, 0], [], [lit(r.choice(["mean", "first"])) for _ in range(r.randint(1, 4))])
